@@ -169,6 +169,8 @@ structure FViol where
   cdefEarlyLf : Nat := 0    -- CDEF row entered before LF rows r, r+1 were complete (LF enabled)
   cdefEarlyRecon : Nat := 0 -- CDEF row entered before recon rows r, r+1 were finished
   lrEarly : Nat := 0        -- LR row entered before CDEF rows r-1, r were complete (CDEF enabled)
+  cdefBeforeLfSave : Nat := 0  -- CDEF row r entered before LF row r+1 stored its map (= before it saved stripe r's boundary lines)
+  lfSaveBeforeRecon : Nat := 0 -- LF row r stores its map (saves stripe r-1's lines, two of them in SB row r-2) before recon row r-2 is done
 
 /-- reconstruction of absolute row `R` finished in every tile column -/
 def reconRowDone (F : Frame) (fs : FSt) (R : Nat) : Bool :=
@@ -188,7 +190,10 @@ def fCheck (F : Frame) (fs : FSt) (op : FOp) (v : FViol) : FViol :=
   | .cdef (Op.enter r) =>
     let rows := [r] ++ (if r + 1 < F.H then [r + 1] else [])
     { v with cdefEarlyLf := v.cdefEarlyLf + b (rows.all (stageRowComplete F.lf fs.lf)),
-             cdefEarlyRecon := v.cdefEarlyRecon + b (rows.all (reconRowDone F fs)) }
+             cdefEarlyRecon := v.cdefEarlyRecon + b (rows.all (reconRowDone F fs)),
+             cdefBeforeLfSave := v.cdefBeforeLfSave + b (decide (F.H ≤ r + 1) || lget fs.lf.ph (r + 1) == Ph.fin) }
+  | .lf (Op.fin r) =>
+    { v with lfSaveBeforeRecon := v.lfSaveBeforeRecon + b (decide (r < 2) || reconRowDone F fs (r - 2)) }
   | .lr (Op.enter r) =>
     let rows := [r] ++ (if r = 0 then [] else [r - 1])
     { v with lrEarly := v.lrEarly + b (rows.all (stageRowComplete F.cdef fs.cdef)) }
@@ -221,7 +226,8 @@ def fwalkLine (args : List Nat) (cs rs : List Nat) (lfW cdefW lrW lfEn cdefEn lr
   let lrDone := ((List.range F.H).filter fun r => lget fs.lrMap r).length
   "fwalk " ++ " ".intercalate (args.map toString) ++
   s!" : tiles={F.tiles.length} H={F.H} steps={steps} lf_early={v.lfEarly} cdef_early_lf={v.cdefEarlyLf} " ++
-  s!"cdef_early_recon={v.cdefEarlyRecon} lr_early={v.lrEarly} unfinished_rows={unfinished} lr_rows_done={lrDone} runaway={cut}"
+  s!"cdef_early_recon={v.cdefEarlyRecon} lr_early={v.lrEarly} cdef_before_lf_save={v.cdefBeforeLfSave} " ++
+  s!"lf_save_before_recon={v.lfSaveBeforeRecon} unfinished_rows={unfinished} lr_rows_done={lrDone} runaway={cut}"
 
 def takeN (l : List Nat) (n : Nat) : Option (List Nat × List Nat) :=
   if n ≤ l.length then some (l.take n, l.drop n) else none
